@@ -3,6 +3,7 @@ import GenlmModel.Model.Transform
 import GenlmModel.Model.Shape
 import GenlmModel.Model.Norm
 import GenlmModel.Model.Mask
+import GenlmModel.Model.WfsaOps
 /-! Operation dispatch of the driver: one JSON object in, one JSON object out. -/
 namespace Genlm
 open Lean (Json)
@@ -79,6 +80,33 @@ def opMask (j : Json) : E Json := do
   pure (Json.mkObj [("masks", .arr (ctxs.map fun c => Json.arr ((nextSet G' c).map sxToJson).toArray).toArray),
                     ("viable", .arr (ctxs.map fun c => Json.bool (viable G' c)).toArray),
                     ("sentence", .arr (ctxs.map fun c => Json.bool (derivesB G' c)).toArray)])
+
+/-- {"op":"pn","wfsa":…,"n":N,"xs":[…]} → `PN A n x` and `PN A (n/2) x` (accepting paths with ≤ n arcs) -/
+def opPn (j : Json) : E Json := do
+  let A : WFSA Sx Sx K ← wfsaOfJson (← getField j "wfsa")
+  let n ← getNat (← getField j "n")
+  let xs ← (← getArr (← getField j "xs")).mapM sxList
+  pure (Json.mkObj [("vals", .arr (xs.map fun x => Wt.toJson (PNtab A n x)).toArray),
+                    ("half", .arr (xs.map fun x => Wt.toJson (PNtab A (n / 2) x)).toArray)])
+
+def sumTag : Sx ⊕ Sx → Sx
+  | .inl i => Sx.tup [.i 0, i]
+  | .inr i => Sx.tup [.i 1, i]
+
+/-- {"op":"wfsa_op","name":…,"a":…,"b":…} → mirror models of the rational operations (base.py) -/
+def opWfsaOp (j : Json) : E Json := do
+  let name ← getStr (← getField j "name")
+  let A : WFSA Sx Sx K ← wfsaOfJson (← getField j "a")
+  match name with
+  | "reverse" => pure (wfsaToJson A.reverse)
+  | "kleene_plus" => pure (wfsaToJson A.kleenePlus)
+  | "union" => do
+      let B : WFSA Sx Sx K ← wfsaOfJson (← getField j "b")
+      pure (wfsaToJson ((A.union B).mapStates sumTag))
+  | "concat" => do
+      let B : WFSA Sx Sx K ← wfsaOfJson (← getField j "b")
+      pure (wfsaToJson ((A.concat B).mapStates sumTag))
+  | _ => throw s!"unknown wfsa op {name}"
 
 def opZn (j : Json) : E Json := do
   let G : CFG Sx K ← cfgOfJson (← getField j "cfg")
@@ -175,6 +203,8 @@ def runOpK [DecidableEq K] [HasInv K] (op : String) (j : Json) : E Json :=
   match op with
   | "zn" => opZn (K := K) j
   | "mask" => opMask (K := K) j
+  | "pn" => opPn (K := K) j
+  | "wfsa_op" => opWfsaOp (K := K) j
   | "shape" => opShape (K := K) j
   | "transform" => opTransform (K := K) j
   | "wn" => opWn (K := K) j
@@ -204,6 +234,7 @@ def runOp (j : Json) : E Json := do
   | "F64" => (match op with
       | "wn" => opWn (K := Float) j
       | "zn" => opZn (K := Float) j
+      | "pn" => opPn (K := Float) j
       | "lift_expectation" => opLiftExpF j
       | _ => throw s!"op {op} not available over F64")
   | "Expectation" => (match op with
